@@ -39,6 +39,7 @@ type c07Req struct {
 	Param     string `json:"c2_param"` /* Decoded value wanted; "" = absent. */
 	ParamWire string `json:"c2_param_wire"`
 	Form      bool   `json:"as_post_form"`
+	Chunked   bool   `json:"form_body_chunked,omitempty"` /* The form body comes without a Content-Length. */
 	Header    string `json:"c2_header"`
 	Host      string `json:"host"`       /* "" = HTTP/1.0 without Host. */
 	HostWant  string `json:"host_ascii"` /* IDNA-ASCII form expected. */
@@ -93,7 +94,10 @@ func (q c07Req) raw() string {
 	if "" != q.Header {
 		fmt.Fprintf(&sb, "c2: %s\r\n", q.Header)
 	}
-	if "" != body {
+	if "" != body && q.Chunked {
+		fmt.Fprintf(&sb, "Content-Type: application/x-www-form-urlencoded\r\nTransfer-Encoding: chunked\r\n")
+		body = fmt.Sprintf("%x\r\n%s\r\n%x\r\n%s\r\n0\r\n\r\n", 3, body[:3], len(body)-3, body[3:])
+	} else if "" != body {
 		fmt.Fprintf(&sb, "Content-Type: application/x-www-form-urlencoded\r\nContent-Length: %d\r\n", len(body))
 	}
 	sb.WriteString("Connection: close\r\n\r\n" + body)
@@ -129,7 +133,7 @@ func c07CheckScript(body []byte, wantAddr, wantPin string) (id string, problem s
 
 func c07(r *ev.Result, tier string) {
 	quick := isQuick(tier)
-	r.Rule = "(a) product of c2 parameter {absent, plain, needing URL decoding, IPv6 literal} x {query, POST form} x c2 header {absent, present} x Host {absent (HTTP/1.0), name, name:port, two IDN names} x SNI {absent, present} on IPv4 and IPv6 listeners; " +
+	r.Rule = "(a) product of c2 parameter {absent, plain, needing URL decoding, IPv6 literal} x {query, POST form with Content-Length, POST form in chunks} x c2 header {absent, present} x Host {absent (HTTP/1.0), name, name:port, two IDN names} x SNI {absent, present} on IPv4 and IPv6 listeners and on port 443; " +
 		"(b) every history of <=4 (thorough 5) template-file operations {write T1, write T2, write unparsable, write failing-at-execution, remove} with two requests after each; (c) 2000 consecutive scripts; " +
 		"(d) the script executed by /bin/sh with real curl for each address source that routes back x {default, custom template}, marker round trip. distinct = distinct requests / histories / executions."
 	base := ev.Scratch("c07-")
@@ -142,24 +146,33 @@ func c07(r *ev.Result, tier string) {
 	params := [][2]string{{"", ""}, {"p.example:8443", "p.example:8443"}, {"p.example/x~y", "p.example%2Fx%7Ey"}, {"[2001:db8::1]:8443", "%5B2001:db8::1%5D:8443"}, {"redir.example/static/p\xc3\xa4th", "redir.example%2Fstatic%2Fp%C3%A4th"}}
 	hosts := [][2]string{{"", ""}, {"host.example", "host.example"}, {"host.example:8443", "host.example:8443"}, {"[::1]:4444", "[::1]:4444"}, {"[2001:db8::10]", "[2001:db8::10]"}, {"192.0.2.9:8443", "192.0.2.9:8443"}, {"b\xc3\xbccher.example", "xn--bcher-kva.example"}, {"m\xc3\xbcnchen.example:4444", "xn--mnchen-3ya.example:4444"}}
 	seen := map[string]bool{}
-	for _, listen := range []string{"127.0.0.1:0", "[::1]:0"} {
+	for _, listen := range []string{"127.0.0.1:0", "[::1]:0", "127.0.0.1:443"} {
 		w, err := hworld.Start(hworld.Config{Listen: listen})
 		if nil != err {
 			if strings.Contains(listen, "::1") {
 				r.Set("ipv6_loopback_unavailable", err.Error())
 				continue
 			}
+			if strings.HasSuffix(listen, ":443") {
+				/* Not root, or someone else has the port. */
+				r.Set("port_443_unavailable", err.Error())
+				continue
+			}
 			ev.Broken("%s", err)
 		}
 		for _, p := range params {
-			for _, form := range []bool{false, true} {
+			for _, formKind := range []string{"query", "form", "form-chunked"} {
+				form := "query" != formKind
 				if form && "" == p[0] {
 					continue
 				}
 				for _, hdr := range []string{"", "h.example:9443", "10.0.0.1:8443/caf\xc3\xa9"} {
 					for _, h := range hosts {
 						for _, sni := range []string{"", "sni.example"} {
-							q := c07Req{Param: p[0], ParamWire: p[1], Form: form, Header: hdr, Host: h[0], HostWant: h[1], SNI: sni}
+							q := c07Req{Param: p[0], ParamWire: p[1], Form: form, Chunked: "form-chunked" == formKind, Header: hdr, Host: h[0], HostWant: h[1], SNI: sni}
+							if q.Chunked && "" == q.Host {
+								continue /* HTTP/1.0 knows no chunks. */
+							}
 							c, err := w.Dial(sni)
 							if nil != err {
 								ev.Broken("dial: %s", err)
